@@ -9,6 +9,7 @@ import random
 import time
 
 from .. import core, monitors
+from ..gen import variants
 from ..refmodel import rv, operands
 
 ID = 'C01'
@@ -415,7 +416,7 @@ def text_shard(asm, acc, sh, deadline):
             plan.append((ms[k % len(ms)], None))
     for m, imm in plan:
         tup, kw = rand_tuple(rng, m, imm)
-        line = text_line(rng, m, tup, kw)
+        line = variants.comment(rng, text_line(rng, m, tup, kw), 0.25)
         if sh.get('alias') and rng.random() < 0.5:
             line = alias_some(rng, line)
         batch.append((m, tup, kw, line))
